@@ -272,14 +272,33 @@ def _valid_ids_rule(ctx, mut: Mutations) -> Optional[Set[str]]:
         run.violation('C14.valid-ids', nids.module.name, 'NamespaceIds', '__post_init__',
                       'NamespaceIds has no __post_init__: identifiers are not validated')
         return None
-    calls = [c for c in iter_own_nodes(post.node) if isinstance(c, ast.Call) and
-             ast.unparse(c.func) in ('re.fullmatch', 're.match', 're.search')]
-    if not calls:
+    # (call, function name, pattern expression, subject expression): re.<fn>(pattern, subject) or <compiled>.<fn>(subject)
+    uses = []
+    for c in iter_own_nodes(post.node):
+        if not isinstance(c, ast.Call) or not isinstance(c.func, ast.Attribute) or c.func.attr not in ('fullmatch', 'match', 'search'):
+            continue
+        if ast.unparse(c.func.value) == 're':
+            uses.append((c, c.func.attr, c.args[0] if c.args else None, c.args[1] if len(c.args) > 1 else None))
+            continue
+        comp = c.func.value
+        if isinstance(comp, ast.Name):
+            d = post.module.assigns.get(comp.id)
+            if d is None:
+                defs = [n for n in iter_own_nodes(post.node) if isinstance(n, ast.Assign) and len(n.targets) == 1
+                        and isinstance(n.targets[0], ast.Name) and n.targets[0].id == comp.id]
+                d = defs[0].value if len(defs) == 1 else None
+            comp = d
+        if isinstance(comp, ast.Call) and ast.unparse(comp.func) in ('re.compile', 'compile') and comp.args:
+            flags = comp.args[1:] or [k.value for k in comp.keywords if k.arg == 'flags']
+            if flags:
+                run.error('C14.valid-ids', post.module.name, post.qualname, c, 'compiled pattern with flags is not modelled', node=c)
+                continue
+            uses.append((c, c.func.attr, comp.args[0], c.args[0] if c.args else None))
+    if not uses:
         run.violation('C14.valid-ids', post.module.name, post.qualname, post.qualname,
                       'no regular-expression validation of the identifiers')
-    for c in calls:
-        fn_name = ast.unparse(c.func).split('.')[-1]
-        pat = const_str(ctx, post, c.args[0]) if c.args else None
+    for c, fn_name, pat_e, subj_e in uses:
+        pat = const_str(ctx, post, pat_e) if pat_e is not None else None
         if pat is None:
             run.error('C14.valid-ids', post.module.name, post.qualname, c, 'the pattern is not a constant', node=c)
             continue
@@ -308,7 +327,7 @@ def _valid_ids_rule(ctx, mut: Mutations) -> Optional[Set[str]]:
         # applied to every identifier: inside a plain loop over self.items, failure raises
         loop = ctx.flow.enclosing(c, (ast.For,))
         ok = loop is not None and ast.unparse(loop.iter) == 'self.items' and isinstance(loop.target, ast.Name) and \
-            c.args[1:] and ast.unparse(c.args[1]) == loop.target.id
+            subj_e is not None and ast.unparse(subj_e) == loop.target.id
         run.add('C14.valid-ids', post.module.name, post.qualname, loop if loop is not None else c, bool(ok),
                 'every identifier of items is validated' if ok else
                 'the validation does not run over every element of self.items', node=c)
